@@ -146,7 +146,7 @@ def c01(pid, tier, seed, t0):
     stages = [
         H("movegen-checked", "c01", "checked"),
         H("movegen-asan", "c01", "asan", group="c01-asan", tiers=("thorough",), args=["--tier-override", "quick"]),
-        M("movegen-miri", "miri-c01", [["--root-lo", str(i), "--root-hi", str(i + 1)] for i in range(0, 10, 2)]),
+        M("movegen-miri", "miri-c01", [["--root-lo", str(i), "--root-hi", str(i + 4)] for i in range(0, 10, 5)]),
     ]
     return run_stages(pid, tier, seed, t0, "exploration", stages,
                       required=("ep_capture_legal", "ep_pseudo_but_illegal", "double_check", "castling_legal",
@@ -168,7 +168,7 @@ WALK_ASSUME = ["oracle = refchess advanced by the same moves (rules), pre-move s
 
 def c02(pid, tier, seed, t0):
     stages = [H("walk-checked", "c02", "checked", args={"quick": ["--scale", "3"], "thorough": ["--scale", "1"]}),
-              M("walk-miri", "miri-c02", [["--root-lo", str(i), "--root-hi", str(i + 1)] for i in range(0, 10, 2)])]
+              M("walk-miri", "miri-c02", [["--root-lo", str(i), "--root-hi", str(i + 4)] for i in range(0, 10, 5)])]
     return run_stages(pid, tier, seed, t0, "exploration", stages,
                       required=WALK_FEATURES + ("double_push_with_neighbour", "double_push_without_neighbour",
                                                 "double_push_neighbour_cannot_capture"),
@@ -349,7 +349,7 @@ def c14(pid, tier, seed, t0):
               H("limits-opt", "c14", "opt", group="c14-opt"),
               P("timed-release", _pm2("c14_stage"))]
     return run_stages(pid, tier, seed, t0, "exploration", stages,
-                      required=("timed_searches", "timed_searches_at_200ms", "movetime_with_overhead_cases", "grid_tuples", "random_tuples", "remaining_below_200ms",
+                      required=("timed_searches", "timed_searches_at_200ms", "timed_searches_quiescence_heavy", "movetime_with_overhead_cases", "grid_tuples", "random_tuples", "remaining_below_200ms",
                                 "only_one_sides_time_supplied", "moves_to_go_1", "moves_to_go_u32_max",
                                 "overhead_exactly_half", "fixed_movetime_cases"),
                       assumptions=["limits read through hook H2", "bound checked with a tolerance of one f32 ulp of the "
